@@ -739,6 +739,7 @@ func props() []rp.Prop {
 			return hmTriple{V: [3]spec.HM{gen.HM(t, "a"), gen.HM(t, "b"), gen.HM(t, "c")},
 				Via: [3]uint8{uint8(rapid.IntRange(0, 4).Draw(t, "via.a")), uint8(rapid.IntRange(0, 4).Draw(t, "via.b")), uint8(rapid.IntRange(0, 4).Draw(t, "via.c"))}}
 		}, Check: checkHMTriple},
+		rp.P[clockCase]{Name: "clock-readings", Sweep: sweepClock, Check: checkClock},
 		rp.P[concCmpCase]{Name: "concurrent-comparisons", Checks: ev.Pick(60, 6000) / ev.Shards(), Gen: genConcCmp, Check: checkConcCmp},
 		rp.P[beyondCase]{Name: "hhmm-beyond-range", Checks: n / 2, Gen: genBeyond, Sweep: sweepBeyond, Check: checkBeyond},
 		rp.P[dateTriple]{Name: "dates", Checks: n, Gen: genDates, Sweep: sweepDates, Check: checkDates},
